@@ -438,6 +438,9 @@ func genFieldsRewrite(r *rand.Rand, n int, emit func(args ...string)) {
 			depth = 3
 		}
 		c.stmt = randFStmt(r, depth)
+		if r.Intn(5) == 0 {
+			conflictCase(r, c)
+		}
 		// shuffle every schema list: the order is arbitrary by contract
 		for k := range c.schema {
 			m := &c.schema[k]
@@ -447,6 +450,59 @@ func genFieldsRewrite(r *rand.Rand, n int, emit func(args ...string)) {
 		c.fillOracle()
 		emit(c.args()...)
 	}
+}
+
+// conflictCase turns c into a case about type conflicts: two to four measurements that all have
+// (most of) the same few field names with independently drawn types (all five field types, so
+// every ordered pair of types meets), and a statement whose innermost sources are several of
+// exactly these measurements, in random order.
+func conflictCase(r *rand.Rand, c *fCase) {
+	names := []string{"cpu", "mem", "disk", "net io"}
+	r.Shuffle(len(names), func(a, b int) { names[a], names[b] = names[b], names[a] })
+	names = names[:2+r.Intn(3)]
+	cols := []string{"value", "v", "usage", "host", "zz"}
+	c.schema = nil
+	for _, n := range names {
+		m := fSchemaM{name: n}
+		for _, col := range cols {
+			if r.Intn(5) == 0 {
+				continue
+			}
+			m.fields = append(m.fields, fCol{col, fFieldTypes[r.Intn(len(fFieldTypes))]})
+		}
+		if r.Intn(3) == 0 {
+			m.tags = append(m.tags, cols[r.Intn(len(cols))])
+		}
+		if r.Intn(2) == 0 {
+			m.tags = append(m.tags, "region")
+		}
+		c.schema = append(c.schema, m)
+	}
+	var fix func(s *fStmt)
+	fix = func(s *fStmt) {
+		hasMeas := false
+		for i := range s.srcs {
+			if s.srcs[i].sub != nil {
+				fix(s.srcs[i].sub)
+			} else {
+				hasMeas = true
+			}
+		}
+		if hasMeas || len(s.srcs) == 0 {
+			var srcs []fSrc
+			for _, src := range s.srcs {
+				if src.sub != nil {
+					srcs = append(srcs, src)
+				}
+			}
+			perm := r.Perm(len(names))
+			for _, i := range perm[:2+r.Intn(len(names)-1)] {
+				srcs = append(srcs, fSrc{meas: names[i]})
+			}
+			s.srcs = srcs
+		}
+	}
+	fix(c.stmt)
 }
 
 func classFieldsRewrite(args []string, out string) string {
